@@ -17,3 +17,6 @@ OBS += [
  Ob(['C05', 'C04', 'C06', 'C19'], 'pool_clear_heap', PU, 'harness/pool.c', 'h_pool_clear', defs=['UNIT_H="%s.h"' % PU, 'HEAPT=1'], unwind=6, cap=200, hunwind=12, desc='MemoryPoolList::clear from any valid heap-table state: empty, inline table, inline capacity, heap table released once', bound='every (count <= 3, capacity, free list) satisfying the invariant'),
  Ob(['C04', 'C06'], 'pool_swap', PU, 'harness/pool.c', 'h_pool_swap', defs=['UNIT_H="%s.h"' % PU], unwind=8, cap=200, hunwind=12, desc='swap(MemoryPoolList, MemoryPoolList) on inline tables: counts, free lists and pool descriptors exchanged', bound='counts 0..2, all free-list heads'),
 ]
+for un_, tier_ in [('pool_s1_c10_i4', 'quick'), ('pool_s1_c16_i4', 'quick')]:
+    OBS.append(Ob(['C19', 'C06', 'C04'], 'free_alloc_' + un_, un_, 'harness/pool.c', 'h_pool_free_alloc', defs=['UNIT_H="%s.h"' % un_], unwind=8, tier=tier_, cap=200, hunwind=12,
+        desc='freeSlot(getSlot(id)) then allocSlot on %s: same slot, same id, id %% capacity / id / capacity addressing, no allocator call' % un_, bound='1..4 pools, every id in use'))
